@@ -26,6 +26,7 @@ EXPLANATION = (
     "documented open/closed split; timestamp helpers produce timezone-aware UTC datetimes. Exactness of the float "
     "division in timestamp conversion is numeric and is not claimed."
     " C17.1 also: the value is not rewritten before the Decimal branch of set_optional_params."
+    " C17.2 also: stopLimitTimeInForce is dropped, by the request object or by the client, when no stop limit price is given."
 )
 TRUSTED = ["CPython ast parser", "mypy type inference (types of request-map values)", "spec tables in sa/rules/c17.py "
            "transcribed from the Binance Spot/Margin and Bitstamp v2 API documentation"]
